@@ -55,6 +55,7 @@ def gen_plan(rng: random.Random, tier: str) -> dict:
         "queue_latency": rng.choice([0.0, 0.003, 0.02]),
         "latency_seed": rng.randrange(1 << 30),
         "shared_sims": rng.random() < 0.5,
+        "slash_seeds": rng.random() < 0.2,
         "tail": 0.5,
     }
     n = rng.randint(3, 30 if big else 16)
@@ -174,6 +175,8 @@ def simplify_plan(plan):
     cfg = plan["cfg"]
     if cfg["queue_latency"]:
         yield {**plan, "cfg": {**cfg, "queue_latency": 0.0}}
+    if cfg.get("slash_seeds"):
+        yield {**plan, "cfg": {**cfg, "slash_seeds": False}}
 
 
 def run_plan(plan: dict) -> RunResult:
@@ -199,6 +202,10 @@ def run_plan(plan: dict) -> RunResult:
         specs_by = {}
         for s in range(cfg["n_sessions"]):
             specs = region_specs(s, cfg["n_regions"][s], cfg.get("shared_sims", False))
+            if cfg.get("slash_seeds"):
+                # grids whose seed capability URLs end in a slash (OpenSim style: .../CAPS/<uuid>/)
+                for sp_ in specs:
+                    sp_["seed"] = sp_["seed"] + "/"
             specs_by[s] = specs
             sessions.append(world.login(s, specs))
         if cfg["n_sessions"] > 1:
